@@ -845,6 +845,47 @@ def rule_bucketat(ctx, rep, rid):
     pat.require(n >= 3, "only %d cds_lfht_mm_type tables found" % n)
 
 
+def rule_mmapargs(ctx, rep, rid):
+    """T9 constant arguments of the mmap bucket allocator's four memory helpers (Linux scheme): the address range is reserved
+    inaccessible (PROT_NONE, private anonymous, no fixed address), populated in place (PROT_READ|PROT_WRITE, MAP_FIXED at the
+    given pointer, and the call must return that pointer), discarded in place (PROT_NONE, MAP_FIXED: bucket memory released by a
+    shrink becomes inaccessible and is given back) and unmapped with the same pointer / length it was given."""
+    m = ctx.mod("cds", "perfn")
+    PROT_NONE, PROT_RW = 0, 3
+    MAP_PRIVATE, MAP_FIXED, MAP_ANON = 2, 0x10, 0x20
+    want = {
+        "memory_map": ("mmap", {0: ("c", 0), 2: PROT_NONE, 3: MAP_PRIVATE | MAP_ANON, 4: -1}),
+        "memory_populate": ("mmap", {0: ("arg", 0), 1: ("arg", 1), 2: PROT_RW, 3: MAP_FIXED | MAP_PRIVATE | MAP_ANON, 4: -1}),
+        "memory_discard": ("mmap", {0: ("arg", 0), 1: ("arg", 1), 2: PROT_NONE, 3: MAP_FIXED | MAP_PRIVATE | MAP_ANON, 4: -1}),
+        "memory_unmap": ("munmap", {0: ("arg", 0), 1: ("arg", 1)}),
+    }
+    for name, (callee, args) in want.items():
+        f = m.fn(name)
+        if f is None:
+            raise Broken("mmap allocator helper %s vanished" % name)
+        rep.touch(f)
+        cs = f.calls(callee)
+        if len(cs) != 1:
+            raise Broken("%s: expected one %s call" % (name, callee))
+        c = cs[0]
+        bad = []
+        for k, w in args.items():
+            e = ir.expr(f, c.args[k], 3)
+            if isinstance(w, tuple):
+                if e != w:
+                    bad.append("arg %d is %s, expected %s" % (k, ir.expr_str(e), ir.expr_str(w)))
+            else:
+                v = ir.const_of(f, c.args[k])
+                if v != w:
+                    bad.append("arg %d is %s, expected %#x" % (k, v, w))
+        rep.check(not bad, rid, name + ".args", "%s(%s) with the specified protection / flags" % (callee, name), "%s: %s" % (name, "; ".join(bad)), [c.where()])
+        if name in ("memory_populate", "memory_discard"):
+            # success test: the fixed mapping must land at the requested address
+            ok = any(a[0] in ("eq", "ne") and ((a[1][0] == "call" and a[1][2] == c.id and a[2] == ("arg", 0)) or (a[2][0] == "call" and a[2][2] == c.id and a[1] == ("arg", 0)))
+                     for b in f.blocks for s_ in b.succ for a in ir.edge_atoms(f, b.id, s_))
+            rep.check(ok, rid, name + ".checks-result", "the result of the fixed mapping is compared with the requested address", "result of mmap(MAP_FIXED) not checked against the requested address", [c.where()])
+
+
 def rule_destroy(ctx, rep, rid):
     d = fn(ctx, "cds_lfht_delete_bucket")
     rep.touch(d)
